@@ -1602,4 +1602,331 @@ fn pubrec_body() {
     std::mem::forget(r); std::mem::forget(st);
 }
 
+// ------------------------------------------------------------------------------------------------
+// Completion recorders. `complete_operation_as_success/failure` cannot be executed symbolically here (their drop glue
+// and boxed-callback call exhaust memory, DESIGN.md section 3). In the harnesses below they are REPLACED by recorders, so
+// that what is decided is the SELECTION: which operation a handler completes, with which acknowledgement or error, and how
+// often. What the two functions do internally (remove the operation, release its id, take() and call its handler) is
+// outside these harnesses.
+// ------------------------------------------------------------------------------------------------
+
+static mut DONE_N: usize = 0;
+static mut DONE_ID: [u64; 4] = [0; 4];
+static mut DONE_KIND: [u8; 4] = [0; 4];
+static mut DONE_PID: [u16; 4] = [0; 4];
+static mut DONE_CODES: [usize; 4] = [0; 4];
+
+const K_OK_NONE: u8 = 10; const K_OK_PUBACK: u8 = 11; const K_OK_PUBREC: u8 = 12; const K_OK_PUBCOMP: u8 = 13; const K_OK_SUBACK: u8 = 14; const K_OK_UNSUBACK: u8 = 15; const K_OK_QOS0: u8 = 16;
+const E_OFFLINE: u8 = 1; const E_ACK_TIMEOUT: u8 = 2; const E_CONN_CLOSED: u8 = 3; const E_RETRIES: u8 = 4; const E_CLIENT_CLOSED: u8 = 5; const E_VALIDATION: u8 = 6; const E_OTHER: u8 = 9;
+
+fn done_reset() { unsafe { DONE_N = 0; } }
+fn done_push(id: u64, kind: u8, pid: u16, codes: usize) {
+    unsafe { if DONE_N < 4 { DONE_ID[DONE_N] = id; DONE_KIND[DONE_N] = kind; DONE_PID[DONE_N] = pid; DONE_CODES[DONE_N] = codes; } DONE_N += 1; }
+}
+fn done_n() -> usize { unsafe { DONE_N } }
+fn done(i: usize) -> (u64, u8, u16, usize) { unsafe { (DONE_ID[i], DONE_KIND[i], DONE_PID[i], DONE_CODES[i]) } }
+
+fn stub_complete_failure(_this: &mut ProtocolState, id: u64, error: GneissError) -> GneissResult<()> {
+    let kind = match &error {
+        GneissError::OfflineQueuePolicyFailed(_) => E_OFFLINE, GneissError::AckTimeout(_) => E_ACK_TIMEOUT, GneissError::ConnectionClosed(_) => E_CONN_CLOSED,
+        GneissError::MaxInterruptedRetriesExceeded(_) => E_RETRIES, GneissError::ClientClosed(_) => E_CLIENT_CLOSED, GneissError::PacketValidationFailure(_) => E_VALIDATION,
+        _ => E_OTHER,
+    };
+    done_push(id, kind, 0, 0);
+    std::mem::forget(error);
+    Ok(())
+}
+
+fn stub_complete_success(_this: &mut ProtocolState, id: u64, completion_result: Option<OperationResponse>) -> GneissResult<()> {
+    match &completion_result {
+        None => done_push(id, K_OK_NONE, 0, 0),
+        Some(OperationResponse::Publish(PublishResponse::Qos0)) => done_push(id, K_OK_QOS0, 0, 0),
+        Some(OperationResponse::Publish(PublishResponse::Qos1(p))) => done_push(id, K_OK_PUBACK, p.packet_id, 0),
+        Some(OperationResponse::Publish(PublishResponse::Qos2(Qos2Response::Pubrec(p)))) => done_push(id, K_OK_PUBREC, p.packet_id, 0),
+        Some(OperationResponse::Publish(PublishResponse::Qos2(Qos2Response::Pubcomp(p)))) => done_push(id, K_OK_PUBCOMP, p.packet_id, 0),
+        Some(OperationResponse::Subscribe(p)) => done_push(id, K_OK_SUBACK, p.packet_id, p.reason_codes.len()),
+        Some(OperationResponse::Unsubscribe(p)) => done_push(id, K_OK_UNSUBACK, p.packet_id, p.reason_codes.len()),
+    }
+    std::mem::forget(completion_result);
+    Ok(())
+}
+
+/// pending table with two operations: a publish (QoS q) bound to p1 and a subscribe/unsubscribe bound to p2
+fn two_pending_state(q: QualityOfService, with_pubrel: bool, sub: bool, n_entries: usize, v311: bool) -> (ProtocolState, u16, u16) {
+    let mut cfg = mk_config();
+    if v311 { cfg.protocol_mode = ProtocolMode::Mqtt311; }
+    let mut st = ProtocolState::new(cfg);
+    st.state = if kani::any() { ProtocolStateType::Connected } else { ProtocolStateType::PendingDisconnect };
+    let (p1, p2): (u16, u16) = (kani::any(), kani::any());
+    kani::assume(p1 != 0 && p2 != 0 && p1 != p2);
+    let mut a = mk_publish_op(3, Some(p1), q, kani::any());
+    if with_pubrel { a.qos2_pubrel = Some(Box::new(MqttPacket::Pubrel(PubrelPacket { packet_id: p1, ..Default::default() }))); }
+    st.operations.insert(3, a);
+    st.allocated_packet_ids.insert(p1, 3);
+    st.pending_publish_operations.insert(p1, 3);
+    let mut b = if sub { mk_subscribe_op(5, Some(p2)) } else { mk_unsubscribe_op(5, Some(p2)) };
+    match &mut *b.packet {
+        MqttPacket::Subscribe(x) => { let mut i = 0; while i < n_entries { x.subscriptions.push(Subscription { topic_filter: "a".to_string(), ..Default::default() }); i += 1; } }
+        MqttPacket::Unsubscribe(x) => { let mut i = 0; while i < n_entries { x.topic_filters.push("a".to_string()); i += 1; } }
+        _ => {}
+    }
+    st.operations.insert(5, b);
+    st.allocated_packet_ids.insert(p2, 5);
+    st.pending_non_publish_operations.insert(p2, 5);
+    (st, p1, p2)
+}
+
+fn untouched(st: &ProtocolState, p1: u16, p2: u16) -> bool {
+    st.operations.len() == 2 && st.pending_publish_operations.get(&p1) == Some(&3) && st.pending_non_publish_operations.get(&p2) == Some(&5)
+        && st.allocated_packet_ids.len() == 2
+}
+
+/// which: 0 PUBACK, 1 PUBREC (success code), 2 PUBREC (failing code), 3 PUBCOMP, 4 SUBACK, 5 UNSUBACK
+fn ack_select_body(which: u8, q: u8, with_pubrel: bool, n_entries: usize, n_codes: usize, v311: bool) {
+    done_reset();
+    let (mut st, p1, p2) = two_pending_state(qos_of(q), with_pubrel, which != 5, n_entries, v311);
+    let ack: u16 = kani::any();
+    let r = match which {
+        0 => st.handle_puback(Box::new(MqttPacket::Puback(PubackPacket { packet_id: ack, ..Default::default() }))),
+        1 => st.handle_pubrec(Box::new(MqttPacket::Pubrec(PubrecPacket { packet_id: ack, reason_code: PubrecReasonCode::Success, ..Default::default() }))),
+        2 => st.handle_pubrec(Box::new(MqttPacket::Pubrec(PubrecPacket { packet_id: ack, reason_code: PubrecReasonCode::NotAuthorized, ..Default::default() }))),
+        3 => st.handle_pubcomp(Box::new(MqttPacket::Pubcomp(PubcompPacket { packet_id: ack, ..Default::default() }))),
+        4 => { let mut sa = SubackPacket { packet_id: ack, ..Default::default() }; let mut i = 0; while i < n_codes { sa.reason_codes.push(crate::mqtt::SubackReasonCode::GrantedQos1); i += 1; }
+               st.handle_suback(Box::new(MqttPacket::Suback(sa))) }
+        _ => { let mut ua = UnsubackPacket { packet_id: ack, ..Default::default() }; let mut i = 0; while i < n_codes { ua.reason_codes.push(crate::mqtt::UnsubackReasonCode::Success); i += 1; }
+               st.handle_unsuback(Box::new(MqttPacket::Unsuback(ua))) }
+    };
+    // specification of the selection (C01): an acknowledgement completes exactly the pending operation of ITS type that was sent
+    // with ITS packet id (QoS1 <- PUBACK, QoS2 <- failing PUBREC or PUBCOMP after PUBREL, subscribe <- SUBACK with one code per
+    // entry, unsubscribe <- UNSUBACK); anything else is a protocol error that completes nothing
+    let hit_pub = ack == p1;
+    let hit_sub = ack == p2;
+    let expect: Option<(u64, u8)> = match which {
+        0 => if hit_pub && q == 1 { Some((3, K_OK_PUBACK)) } else { None },
+        1 => None,
+        2 => if hit_pub && q == 2 { Some((3, K_OK_PUBREC)) } else { None },
+        3 => if hit_pub && q == 2 && with_pubrel { Some((3, K_OK_PUBCOMP)) } else { None },
+        4 => if hit_sub && n_codes == n_entries { Some((5, K_OK_SUBACK)) } else { None },
+        _ => if hit_sub && (v311 || n_codes == n_entries) { Some((5, K_OK_UNSUBACK)) } else { None },
+    };
+    kani::cover!(expect.is_some(), "the matching operation is completed");
+    kani::cover!(expect.is_none(), "no operation is completed");
+    match expect {
+        Some((id, kind)) => {
+            assert!(r.is_ok(), "gv: a matching acknowledgement must be accepted");
+            assert!(done_n() == 1, "gv: exactly one completion");
+            let d = done(0);
+            assert!(d.0 == id && d.1 == kind && d.2 == ack, "gv: the operation is completed with its own acknowledgement");
+            if which == 5 { assert!(d.3 == n_entries, "gv: one reason code per requested entry"); }
+            if which == 4 { assert!(d.3 == n_entries); }
+        }
+        None => {
+            assert!(done_n() == 0, "gv: a foreign, mistyped or unknown acknowledgement must not complete any operation");
+            if which == 1 && hit_pub && q == 2 {
+                // successful PUBREC: handshake continues (checked in c04_pubrec_*); not an error
+                assert!(r.is_ok());
+            } else {
+                assert!(r.is_err(), "gv: a foreign, mistyped or unknown acknowledgement is a protocol error");
+                assert!(untouched(&st, p1, p2));
+            }
+        }
+    }
+    std::mem::forget(r); std::mem::forget(st);
+}
+
+/// connection closed with a CURRENT (half-encoded) operation; completion recorded instead of executed
+/// kind: 0 fresh publish (QoS symbolic via q), 1 retransmitted publish (DUP=1), 2 QoS2 with PUBREL slot (PUBREC seen on THIS connection: also pending),
+/// 3 QoS2 DUP=1 with PUBREL slot taken from the retransmission queue of a resumed connection (NOT in the pending table), 4 subscribe, 5 internal PUBACK
+fn close_current_body(kind: u8, policy: OfflineQueuePolicy, q: u8) {
+    done_reset();
+    let mut cfg = mk_config();
+    cfg.offline_queue_policy = policy;
+    let mut st = ProtocolState::new(cfg);
+    st.state = ProtocolStateType::Connected;
+    let pid: u16 = kani::any();
+    kani::assume(pid != 0);
+    let op = match kind {
+        0 => mk_publish_op(7, if q > 0 { Some(pid) } else { None }, qos_of(q), false),
+        1 => mk_publish_op(7, Some(pid), qos_of(q), true),
+        2 => { let mut o = mk_publish_op(7, Some(pid), QualityOfService::ExactlyOnce, kani::any()); o.qos2_pubrel = Some(Box::new(MqttPacket::Pubrel(PubrelPacket { packet_id: pid, ..Default::default() }))); o }
+        3 => { let mut o = mk_publish_op(7, Some(pid), QualityOfService::ExactlyOnce, true); o.qos2_pubrel = Some(Box::new(MqttPacket::Pubrel(PubrelPacket { packet_id: pid, ..Default::default() }))); o }
+        4 => mk_subscribe_op(7, Some(pid)),
+        _ => mk_internal_op(7, MqttPacket::Puback(PubackPacket { packet_id: pid, ..Default::default() })),
+    };
+    st.operations.insert(7, op);
+    if kind != 5 && !(kind == 0 && q == 0) { st.allocated_packet_ids.insert(pid, 7); }
+    if kind == 2 { st.pending_publish_operations.insert(pid, 7); }
+    st.current_operation = Some(7);
+    let mut events: VecDeque<PacketEvent> = VecDeque::new();
+    let r = {
+        let mut ctx = NetworkEventContext { event: NetworkEvent::ConnectionClosed, current_time: zero_instant(), packet_events: &mut events };
+        st.handle_network_event_connection_closed(&mut ctx)
+    };
+    assert!(r.is_ok());
+    assert!(st.state == ProtocolStateType::Disconnected && st.current_operation.is_none());
+    let passes = match kind { 0 => oracle_policy(policy, true, q, false), 4 => oracle_policy(policy, false, 0, true), _ => false };
+    let in_resubmit = st.resubmit_operation_queue.len() == 1 && *st.resubmit_operation_queue.front().unwrap() == 7;
+    let in_user = st.user_operation_queue.len() == 1 && *st.user_operation_queue.front().unwrap() == 7;
+    match kind {
+        1 | 2 | 3 => {
+            // in-flight QoS1/2 exchange: retained for retransmission whatever the policy, exactly once, never failed
+            assert!(done_n() == 0, "gv: an in-flight QoS1/2 publish must not be failed at disconnection");
+            assert!(in_resubmit && st.user_operation_queue.is_empty() && st.high_priority_operation_queue.is_empty(), "gv: an in-flight QoS1/2 publish must wait in the retransmission queue");
+            assert!(publish_of(&st, 7).duplicate && publish_of(&st, 7).packet_id == pid);
+            assert!(st.operations.get(&7).unwrap().qos2_pubrel.is_some() == (kind >= 2));
+        }
+        0 | 4 => {
+            // never sent completely: kept iff the policy preserves its kind (front of the user queue), else failed with the offline-policy error
+            if passes {
+                assert!(done_n() == 0 && in_user && st.resubmit_operation_queue.is_empty(), "gv: an operation the policy preserves must be kept");
+            } else {
+                assert!(done_n() == 1 && done(0).0 == 7 && done(0).1 == E_OFFLINE, "gv: an operation the policy rejects must be failed with the offline-policy error");
+                assert!(st.user_operation_queue.is_empty() && st.resubmit_operation_queue.is_empty());
+            }
+        }
+        _ => {
+            // internal packets (acks, pings) die with the connection
+            assert!(done_n() == 1 && done(0).0 == 7 && done(0).1 == E_CONN_CLOSED);
+            assert!(st.user_operation_queue.is_empty() && st.resubmit_operation_queue.is_empty());
+        }
+    }
+    assert!(st.high_priority_operation_queue.is_empty());
+    std::mem::forget(r); std::mem::forget(events); std::mem::forget(st);
+}
+
+/// connection closed with one operation in a queue / table (not current); completion recorded instead of executed
+/// where: 0 user queue, 1 written QoS0 awaiting write completion, 2 pending subscribe/unsubscribe, 3 high-priority internal (PUBACK)
+fn close_queued_body(where_: u8, policy: OfflineQueuePolicy, kind_sub: bool, q: u8, limit: Option<u32>, count0: u32) {
+    done_reset();
+    let mut cfg = mk_config();
+    cfg.offline_queue_policy = policy;
+    cfg.max_interrupted_retries = limit;
+    let mut st = ProtocolState::new(cfg);
+    st.state = ProtocolStateType::Connected;
+    let pid: u16 = kani::any();
+    kani::assume(pid != 0);
+    let mut op = match where_ {
+        0 => if kind_sub { mk_subscribe_op(7, None) } else { mk_publish_op(7, None, qos_of(q), false) },
+        1 => mk_publish_op(7, None, QualityOfService::AtMostOnce, false),
+        2 => if kind_sub { mk_subscribe_op(7, Some(pid)) } else { mk_unsubscribe_op(7, Some(pid)) },
+        _ => mk_internal_op(7, MqttPacket::Puback(PubackPacket { packet_id: pid, ..Default::default() })),
+    };
+    op.interruption_count = count0;
+    st.operations.insert(7, op);
+    match where_ {
+        0 => st.user_operation_queue.push_back(7),
+        1 => { st.pending_write_completion_operations.push_back(7); st.pending_write_completion = true; }
+        2 => { st.pending_non_publish_operations.insert(pid, 7); st.allocated_packet_ids.insert(pid, 7); }
+        _ => st.high_priority_operation_queue.push_back(7),
+    }
+    let mut events: VecDeque<PacketEvent> = VecDeque::new();
+    let r = {
+        let mut ctx = NetworkEventContext { event: NetworkEvent::ConnectionClosed, current_time: zero_instant(), packet_events: &mut events };
+        st.handle_network_event_connection_closed(&mut ctx)
+    };
+    assert!(r.is_ok());
+    let in_user = st.user_operation_queue.len() == 1 && *st.user_operation_queue.front().unwrap() == 7;
+    let passes = match where_ { 0 => if kind_sub { oracle_policy(policy, false, 0, true) } else { oracle_policy(policy, true, q, false) },
+                                1 => oracle_policy(policy, true, 0, false), 2 => oracle_policy(policy, false, 0, true), _ => false };
+    let over_limit = where_ == 2 && match limit { Some(l) => count0 + 1 > l, None => false };
+    assert!(st.resubmit_operation_queue.is_empty() && st.high_priority_operation_queue.is_empty() && st.pending_write_completion_operations.is_empty());
+    assert!(st.pending_non_publish_operations.is_empty() && st.pending_publish_operations.is_empty());
+    if where_ == 3 {
+        assert!(done_n() == 1 && done(0).0 == 7 && done(0).1 == E_CONN_CLOSED && st.user_operation_queue.is_empty());
+    } else if over_limit {
+        // interrupted for the (N+1)-th time while sent-but-unacknowledged: retries-exceeded error, first and foremost
+        assert!(done_n() >= 1 && done(0).0 == 7 && done(0).1 == E_RETRIES, "gv: the (N+1)-th interruption must fail the operation with the retries-exceeded error");
+    } else if passes {
+        assert!(done_n() == 0 && in_user, "gv: an operation the policy preserves must be kept while offline");
+    } else {
+        assert!(done_n() == 1 && done(0).0 == 7 && done(0).1 == E_OFFLINE && st.user_operation_queue.is_empty(), "gv: an operation the policy rejects must be failed with the offline-policy error");
+    }
+    std::mem::forget(r); std::mem::forget(events); std::mem::forget(st);
+}
+
+/// CONNACK without session: a retransmission-queue publish meets the offline policy (kept as a fresh publish or failed)
+fn session_absent_policy_body(policy: OfflineQueuePolicy, q: u8) {
+    done_reset();
+    let mut cfg = mk_config();
+    cfg.offline_queue_policy = policy;
+    let mut st = ProtocolState::new(cfg);
+    st.state = ProtocolStateType::Connected;
+    let p1: u16 = kani::any();
+    kani::assume(p1 != 0);
+    let mut a = mk_publish_op(3, Some(p1), qos_of(q), true);
+    let has_pubrel = q == 2 && kani::any::<bool>();
+    if has_pubrel { a.qos2_pubrel = Some(Box::new(MqttPacket::Pubrel(PubrelPacket { packet_id: p1, ..Default::default() }))); }
+    st.operations.insert(3, a);
+    st.allocated_packet_ids.insert(p1, 3);
+    st.resubmit_operation_queue.push_back(3);
+    let r = st.apply_session_present_to_connection(false);
+    assert!(r.is_ok());
+    assert!(st.resubmit_operation_queue.is_empty() && st.allocated_packet_ids.is_empty());
+    if oracle_policy(policy, true, q, false) {
+        assert!(done_n() == 0, "gv: a publish the policy preserves must be restarted, not failed, when the session is lost");
+        assert!(st.user_operation_queue.len() == 1 && *st.user_operation_queue.front().unwrap() == 3);
+        let o = st.operations.get(&3).unwrap();
+        let p = publish_of(&st, 3);
+        // restarted as a fresh publish: DUP=0, no identifier, PUBREL forgotten
+        assert!(!p.duplicate && p.packet_id == 0 && o.packet_id.is_none() && o.qos2_pubrel.is_none(), "gv: a restarted publish must be a fresh publish");
+    } else {
+        assert!(done_n() == 1 && done(0).0 == 3 && done(0).1 == E_OFFLINE && st.user_operation_queue.is_empty(), "gv: a publish the policy rejects must be failed when the session is lost");
+    }
+    std::mem::forget(r); std::mem::forget(st);
+}
+
+/// submission while not connected: kept or failed strictly by policy (C15), while connected always queued
+fn submit_body(kind: u8, q: u8) {
+    done_reset();
+    let mut cfg = mk_config();
+    let policy = any_policy();
+    cfg.offline_queue_policy = policy;
+    let mut st = ProtocolState::new(cfg);
+    st.state = any_state();
+    let connected = st.state == ProtocolStateType::Connected;
+    let ev = match kind {
+        0 => super::UserEvent::Publish(Box::new(MqttPacket::Publish(PublishPacket { topic: "t".to_string(), qos: qos_of(q), ..Default::default() })),
+                                        PublishOptionsInternal { options: PublishOptions::default(), response_handler: Some(mk_publish_handler()) }),
+        1 => super::UserEvent::Subscribe(Box::new(MqttPacket::Subscribe(SubscribePacket { ..Default::default() })),
+                                        SubscribeOptionsInternal { options: SubscribeOptions::default(), response_handler: None }),
+        _ => super::UserEvent::Unsubscribe(Box::new(MqttPacket::Unsubscribe(UnsubscribePacket { ..Default::default() })),
+                                        UnsubscribeOptionsInternal { options: UnsubscribeOptions::default(), response_handler: None }),
+    };
+    st.handle_user_event(super::UserEventContext { event: ev, current_time: zero_instant() });
+    let passes = connected || if kind == 0 { oracle_policy(policy, true, q, false) } else { oracle_policy(policy, false, 0, true) };
+    kani::cover!(!passes, "rejected at submission");
+    kani::cover!(passes && !connected, "kept while offline");
+    if passes {
+        assert!(done_n() == 0 && st.user_operation_queue.len() == 1 && *st.user_operation_queue.back().unwrap() == 1, "gv: a preserved operation is queued at the back of the user queue");
+    } else {
+        assert!(done_n() == 1 && done(0).0 == 1 && done(0).1 == E_OFFLINE && st.user_operation_queue.is_empty(), "gv: a rejected operation is failed with the offline-policy error at submission");
+    }
+    std::mem::forget(st);
+}
+
+/// ack timeouts in service: every record whose deadline has passed is failed with the ack-timeout error, earliest first, nothing else
+fn ack_timeouts_body() {
+    done_reset();
+    let mut st = mk_state(ProtocolStateType::Connected);
+    let t1 = zero_instant() + Duration::new(kani::any::<u32>() as u64, kani::any::<u32>() % 1_000_000_000);
+    let t2 = zero_instant() + Duration::new(kani::any::<u32>() as u64, kani::any::<u32>() % 1_000_000_000);
+    st.operation_ack_timeouts.push(Reverse(OperationTimeoutRecord { id: 11, timeout: t1 }));
+    st.operation_ack_timeouts.push(Reverse(OperationTimeoutRecord { id: 12, timeout: t2 }));
+    st.current_time = zero_instant() + Duration::new(kani::any::<u32>() as u64, kani::any::<u32>() % 1_000_000_000);
+    let r = st.process_ack_timeouts();
+    assert!(r.is_ok());
+    let due1 = t1 <= st.current_time;
+    let due2 = t2 <= st.current_time;
+    kani::cover!(due2 && !due1, "only the later-submitted operation is due");
+    kani::cover!(due1 && due2, "both due");
+    let n = (due1 as usize) + (due2 as usize);
+    assert!(done_n() == n, "gv: exactly the operations whose ack deadline has passed are failed");
+    assert!(st.operation_ack_timeouts.len() == 2 - n);
+    let mut i = 0;
+    while i < n { assert!(done(i).1 == E_ACK_TIMEOUT); i += 1; }
+    if n == 1 { assert!(done(0).0 == if due1 { 11 } else { 12 }, "gv: the operation that is due is the one failed"); }
+    if n == 2 { assert!((done(0).0 == 11 && done(1).0 == 12) || (done(0).0 == 12 && done(1).0 == 11)); if t1 < t2 { assert!(done(0).0 == 11); } if t2 < t1 { assert!(done(0).0 == 12); } }
+    std::mem::forget(r); std::mem::forget(st);
+}
+
 include!("protocol_gen.rs");
